@@ -218,6 +218,7 @@ def run(ctx):
     sub_cases = [(k, s, t) for k, s, t, c in cases if c == (1, 1, 1)]
     if ctx.quick():
         sub_cases = sub_cases[:1200] + sub_cases[-150:]
+    sub_reqs, sub_impl = [], []
     for kind, s, t in sub_cases:
         inp = dict(s=s, t=t)
         exp = ref_substring(s, t)
@@ -226,6 +227,8 @@ def run(ctx):
             d = py(sa.levenshtein_distance_substring(list(s), list(t)))
         except Exception as e:
             d = 'EXC:' + type(e).__name__
+        sub_reqs.append(dict(p='C13', op='distsub', s=ids_of(s, t)[0], t=ids_of(s, t)[1], c=[1, 1, 1]))
+        sub_impl.append(d)
         if d != exp:
             ctx.violation('substring-dist:%s:%s' % (kind_class(s, t), 'both-empty' if not s and not t else 'nonempty'),
                           'levenshtein_distance_substring is not the minimum over substrings', inp, d, exp)
@@ -329,6 +332,13 @@ def run(ctx):
                     ctx.disagree('C13.stats model != implementation', reqs[k - 1], out['stats'], m)
                 else:
                     ctx.traces_validated += 1
+        rep = common.Driver(ctx).batch(sub_reqs)
+        for r, got, q in zip(rep, sub_impl, sub_reqs):
+            m = r.get('ok', r.get('err'))
+            if m != got:
+                ctx.disagree('C13.distsub model != implementation', q, got, m)
+            else:
+                ctx.traces_validated += 1
     else:
         ctx.notes.append('driver unavailable: correspondence skipped, oracle only')
 
